@@ -233,3 +233,15 @@ mod tests {
         Args::command().debug_assert()
     }
 }
+
+/// verification only: entry points for running the binary's code inside the simulator
+#[cfg(cfr_verif)]
+pub mod verif {
+    pub use super::auto::from_reader as auto_from_reader;
+    pub use super::gambit::from_reader as gambit_from_reader;
+    pub use super::json::from_reader as json_from_reader;
+
+    pub fn entry() {
+        super::main()
+    }
+}
